@@ -239,7 +239,9 @@ func grew(a, b uint64) uint64 {
 func classify(err error, when string) error {
 	switch e := err.(type) {
 	case *svc.ErrDead:
-		if m := hugeAlloc.FindStringSubmatch(e.Log); m != nil {
+		if m := hugeAlloc.FindStringSubmatch(e.Log); m != nil && len(m[1]) <= 10 {
+			// (allocations of 10 GiB and more - 11+ digits - fail on ordinary hosts without
+			// any guard and are reported below)
 			// one giant (>= 1 GiB) allocation hit the address-space guard that protects the
 			// sandbox; without the guard such an allocation is virtual and short-lived. The
 			// guard is not the oracle: inconclusive, counted, not a violation.
